@@ -143,6 +143,39 @@ func main() {
 		replicate(run, h, run.Scale(48, 400), "C09:replicas-diverge")
 		emit(run, h)
 	}
+	// forced: one sender with many transactions (more than any plausible bound on per-sender
+	// bookkeeping), then the same transactions delivered again: whatever a node forgets, all
+	// nodes must forget alike (seeded C09d evicted a nonce in map order once a sender had 256)
+	{
+		g := appdrv.Genesis{ChainID: "verif-chain", Threshold: 2, Validators: []appdrv.KV{{K: make([]byte, 32), P: 10}}}
+		for i := 0; i < 3; i++ {
+			g.Keypers = append(g.Keypers, u.Addrs[i].Bytes())
+		}
+		h := appdrv.History{Genesis: g}
+		const many = 300
+		var txs [][]byte
+		for i := 0; i < many; i++ {
+			txs = append(txs, appdrv.SignTx(u.Keys[0], g.ChainID, uint64(5000+i), shmsg.NewBlockSeen(uint64(i%7))))
+		}
+		height := int64(0)
+		block := func(part [][]byte, note string) {
+			height++
+			h.Calls = append(h.Calls, appdrv.Call{Kind: "begin", Height: height})
+			for _, t := range part {
+				h.Calls = append(h.Calls, appdrv.Call{Kind: "deliver", Tx: t, Note: note})
+			}
+			h.Calls = append(h.Calls, appdrv.Call{Kind: "end", Height: height}, appdrv.Call{Kind: "commit"})
+		}
+		for i := 0; i < many; i += 50 {
+			block(txs[i:i+50], "many-nonces")
+		}
+		for i := 0; i < many; i += 60 {
+			block(txs[i:i+60], "many-nonces again")
+		}
+		replicate(run, h, run.Scale(6, 40), "C09:replicas-diverge")
+		emit(run, h)
+		run.Dist["forced:one-sender-300-nonces-then-replayed"]++
+	}
 	n := run.Scale(300, 6000)
 	for i := 0; i < n; i++ {
 		g := &appdrv.Gen{U: u, R: run.RNG.Fork(), Weird: i%5 == 0}
